@@ -193,17 +193,14 @@ Qed.
    The two figures are computed by different code (ExtData rules vs Miniscript::script_size). They
    agree on the class [size_wf]: Ctx::pk_len equals the key-byte constant of the pk_k rule
    (true for the harness contexts since /repo 4c5160f8), multi with k, n < 128,
-   multi_a with 1 <= n <= 16 (beyond: the rule adds multi's cost of pushing n, which multi_a does
-   not push). With script_size = encoded length (C04: script_size_ok) this gives pk_cost = length. *)
+   multi_a with 33-byte pk_len (Tap). With script_size = encoded length (C04: script_size_ok) this gives pk_cost = length. *)
 Fixpoint size_wf (fx : fixes) (c : xctx) (m : ms) : bool :=
   match m with
   | MPkK k => xc_pklen c k =? fst (key_sig_bytes (fx_pkk fx) (xc_schnorr c) (xc_unc c k))
   | MMulti k ks | MSortedMulti k ks =>
     (k <? 128) && (N.of_nat (length ks) <? 128)
     && forallb (fun key => xc_pklen c key =? (if xc_unc c key then 66 else 34)) ks
-  | MMultiA k ks | MSortedMultiA k ks =>
-    (k <? 128) && (1 <=? N.of_nat (length ks)) && (N.of_nat (length ks) <=? 16)
-    && forallb (fun key => xc_pklen c key =? 33) ks
+  | MMultiA k ks | MSortedMultiA k ks => forallb (fun key => xc_pklen c key =? 33) ks
   | MAlt x | MSwap x | MCheck x | MDupIf x | MVerify x | MNonZero x | MZeroNotEqual x => size_wf fx c x
   | MAndV x y | MAndB x y | MOrB x y | MOrD x y | MOrC x y | MOrI x y => size_wf fx c x && size_wf fx c y
   | MAndOr x y z => size_wf fx c x && size_wf fx c y && size_wf fx c z
@@ -288,12 +285,8 @@ Proof.
   - apply andb_prop in Hw. destruct Hw as [Hw Hk3]. apply andb_prop in Hw. destruct Hw as [Hk1 Hk2].
     apply N.ltb_lt in Hk1. apply N.ltb_lt in Hk2.
     unfold ext_multi. cbn [pk_cost]. rewrite map_length, (num_cost_multi _ _ Hk1 Hk2), (sum_pklen_multi c ks Hk3). lia.
-  - (* multi_a *) apply andb_prop in Hw. destruct Hw as [Hw Hk4]. apply andb_prop in Hw. destruct Hw as [Hw Hk3].
-    apply andb_prop in Hw. destruct Hw as [Hk1 Hk2]. apply N.ltb_lt in Hk1. apply N.leb_le in Hk2. apply N.leb_le in Hk3.
-    unfold ext_multi_a. cbn [pk_cost]. rewrite (sum_pklen_33 c ks Hk4). lia.
-  - apply andb_prop in Hw. destruct Hw as [Hw Hk4]. apply andb_prop in Hw. destruct Hw as [Hw Hk3].
-    apply andb_prop in Hw. destruct Hw as [Hk1 Hk2]. apply N.ltb_lt in Hk1. apply N.leb_le in Hk2. apply N.leb_le in Hk3.
-    unfold ext_multi_a. cbn [pk_cost]. rewrite (sum_pklen_33 c ks Hk4). lia.
+  - (* multi_a *) unfold ext_multi_a. cbn [pk_cost]. rewrite (sum_pklen_33 c ks Hw). lia.
+  - unfold ext_multi_a. cbn [pk_cost]. rewrite (sum_pklen_33 c ks Hw). lia.
 Qed.
 
 (* since /repo 4c5160f8 the class contains the scripts with uncompressed keys of the harness contexts *)
